@@ -492,3 +492,123 @@ PROPERTIES["C11"] = {
             "Non-trivial: contains jumps and >= 5 Next calls.",
     "assumptions": [],
 }
+
+
+# ------------------------------------------------------------------ markup families (C13, C14, C15)
+def _markup_input(case):
+    x = case[1] if tag(case) == "markup" else case[2]
+    return x if isinstance(x, str) else bytes(x).decode("utf8", "replace")
+
+
+def markup_safety(obs):
+    """C15 on the implementation's result alone."""
+    t = tag(obs)
+    if t in ("panic", "CRASH", "HARNESS-PANIC"):
+        return "violation", "parsing panicked"
+    if t == "ok":
+        text, attrs, tfa = obs[1], obs[2], obs[3]
+        for a, x in zip(attrs, tfa):
+            if a[1] < 0 or a[2] < 0 or a[1] + a[2] > len(text):
+                return "violation", "attribute %s has the range %d+%d outside the text of %d characters" % (a[0], a[1], a[2], len(text))
+            if tag(x) == "panic":
+                return "violation", "TextForAttribute panicked for attribute %s" % a[0]
+            if x[1] != text[a[1]:a[1] + a[2]]:
+                return "violation", "TextForAttribute(%s) = %r, the range holds %r" % (a[0], str(x[1]), text[a[1]:a[1] + a[2]])
+    return None
+
+
+def markupdoc_oracle(case, obs, exp):
+    s = markup_safety(obs)
+    if s:
+        return s
+    if len(case) > 2 and tag(case[2]) == "expect":
+        want_text, want_attrs = case[2][1], case[2][2]
+        if tag(obs) != "ok":
+            return "violation", "a well-formed document was rejected"
+        if obs[1] != want_text:
+            return "violation", "plain text %r, the document's text is %r" % (str(obs[1]), str(want_text))
+        got = sorted((str(a[0]), a[1], a[2], str(x[1])) for a, x in zip(obs[2], obs[3]))
+        want = sorted((str(a[0]), a[1], a[2], str(a[3])) for a in want_attrs)
+        if got != want:
+            return "violation", "attributes %s, the document's markers enclose %s" % (got, want)
+        return "ok", "matches the document's meaning"
+    return "unknown", "result is safe but differs from the model's"
+
+
+def markupfuzz_oracle(case, obs, exp):
+    s = markup_safety(obs)
+    return s if s else ("unknown", "result is safe but differs from the model's")
+
+
+def markuphist_oracle(case, obs, exp):
+    if tag(obs) != "hist":
+        return "violation", "parsing panicked or died"
+    for part in obs[1:]:
+        s = markup_safety(part)
+        if s:
+            return s
+    if obs[1] != obs[2]:
+        return "violation", "the same line parsed on a parser with history gives %s, on a fresh parser %s" % (
+            sexp.dump(obs[1])[:300], sexp.dump(obs[2])[:300])
+    return "unknown", "reused and fresh parser agree with each other but differ from the model"
+
+
+def markup_features(case):
+    src = _markup_input(case)
+    nm = src.count("[")
+    labels = ["markers=%d" % min(nm, 6), "multibyte" if any(ord(c) > 127 for c in src) else "ascii",
+              "expectation" if (len(case) > 2 and tag(case[2]) == "expect") else "no-expectation",
+              "escape" if "\\" in src else "no-escape", "colon" if ":" in src else "no-colon",
+              "edge-space" if src != src.strip() else "no-edge-space",
+              "replacement" if any(k in src for k in ("select", "plural", "ordinal", "nomarkup")) else "no-replacement",
+              "bytes" if not isinstance(case[1] if tag(case) == "markup" else case[2], str) else "string"]
+    return sexp.dump(case[1:]), nm >= 2, labels
+
+
+def markup_shrink(case):
+    idx = 1 if tag(case) == "markup" else 2
+    x = case[idx]
+    out = []
+    n = len(x)
+    for size in (max(1, n // 4), 1):
+        for i in range(0, n, size):
+            y = x[:i] + x[i + size:]
+            out.append(case[:idx] + [sexp.Sym(y) if isinstance(x, str) else y])     # drops the expectation
+            if len(out) > 150:
+                return out
+    if tag(case) == "markuphist":
+        for r in drop_each(case[1]):
+            out.append([case[0], r, case[2]])
+    return out
+
+
+FAMILIES["markupdoc"] = {"oracle": markupdoc_oracle, "features": markup_features, "shrink": markup_shrink}
+FAMILIES["markupfuzz"] = {"oracle": markupfuzz_oracle, "features": markup_features, "shrink": markup_shrink}
+FAMILIES["markuphist"] = {"oracle": markuphist_oracle, "features": markup_features, "shrink": markup_shrink}
+FAMILIES["unicode"] = {"oracle": lambda c, o, e: ("unknown", "the generated Unicode tables differ from the toolchain's (regenerate coq/Generated/UnicodeTables.v)"),
+                       "features": lambda c: (sexp.dump(c), True, ["runes=%d" % (len(c) - 1)]),
+                       "shrink": lambda c: [[c[0]] + r for r in drop_each(c[1:])][:50]}
+
+PROPERTIES["C13"] = {
+    "families": [("markupdoc", 2500, 100000), ("unicode", 20, 400)],
+    "rule": "documents from a grammar: text chunks (ASCII, multi-byte incl. astral, whitespace), escaped brackets, "
+            "open/close/close-all/self-closing markers with 0-3 properties of every value type and whitespace inside "
+            "markers, nesting/overlap up to 4 open markers, repeated names, Name: prefixes, replacement markers in "
+            "self-closing and closed-by-name form; one third are 'structured' documents whose plain text and enclosed "
+            "ranges the generator knows by construction (independent oracle). Distinct by input; non-trivial: >= 2 markers.",
+    "assumptions": ["unicode.IsLetter/IsDigit ranges generated from the toolchain (checked by the unicode family)"],
+}
+PROPERTIES["C14"] = {
+    "families": [("markuphist", 1200, 40000)],
+    "rule": "a history of 0-8 previously parsed lines (a third of them malformed or arbitrary bytes) on one LineParser "
+            "value, then a line (sometimes one of the history again); the result on the reused parser is compared with "
+            "the result on a fresh parser and with the model (a function of the line alone). Non-trivial: >= 2 markers.",
+    "assumptions": [],
+}
+PROPERTIES["C15"] = {
+    "families": [("markupfuzz", 3000, 200000)],
+    "rule": "three streams: arbitrary bytes (invalid UTF-8, NULs, marker punctuation), valid documents with 1-3 "
+            "byte-level mutations, soups of marker fragments; every returned attribute is range-checked against the text "
+            "in characters and TextForAttribute is called on it. Non-trivial: >= 2 '[' in the input.",
+    "assumptions": [],
+}
